@@ -685,6 +685,10 @@ func registerReflect() {
 		if types.Identical(r.t.Underlying(), dst.Underlying()) {
 			return packRV(dst, copyVal(r.get()))
 		}
+		if _, isPtr := dst.Underlying().(*types.Pointer); isPtr {
+			// pointer conversion between types with identical base types: the same pointer
+			return packRV(dst, r.get())
+		}
 		return packRV(dst, fr.i.conv(dst, r.t, r.get()))
 	})
 	vm("MapIndex", func(fr *frame, r rv, a []value) value {
